@@ -130,8 +130,7 @@ def main(tier, seed):
     for part in core.pmap(_run, jobs):
         rep.merge(part)
     c = rep.counters
-    if c["pairs.judged"] < 0.5 * c["pairs"]:
-        raise core.Inconclusive("fewer than half of the generated U/A pairs were judged (%d of %d)" % (c["pairs.judged"], c["pairs"]))
+    rep.require(not (c["pairs.judged"] < 0.5 * c["pairs"]), "fewer than half of the generated U/A pairs were judged (%d of %d)" % (c["pairs.judged"], c["pairs"]))
     rep.assumptions += ["IDNA2008-valid labels are approximated by letter pools of 8 scripts; a pair is judged only if this libidn2 "
                         "converts the U spelling and the result equals the Punycode computed in Python (anchor)",
                         "scripts with contextual rules are not generated"]
